@@ -39,10 +39,10 @@ ASSUMPTIONS = [
     "without keywords and inherits cc_arches, whereas PackageList.expand documents that situation as `-` (skip the line)",
 ]
 BOUNDS = {
-    "quick": "49+6 repositories (7x7 keyword sets on versions 1,2, plus 6 where a version carries an arch missing from known_arches) x 66 single-line requests (6 specs x 11 keyword lists) + 16 repositories x 99 "
-    "two-line requests = 4,818 (repository, request) cases x 32 option sets = 154k match_packages runs; suggested_keywords on every version",
-    "thorough": "144 two-version + 125 three-version repositories x 84 single lines + 36 repositories x 196 two-line requests = 29,652 cases x 72 "
-    "option sets = 2.1M match_packages runs",
+    "quick": "49+6 repositories (7x7 keyword sets on versions 1,2, plus 6 where a version carries an arch missing from known_arches) x 66 single-line requests (6 specs x 11 keyword lists) + 18 repositories x 132 "
+    "two-line requests = 6,006 (repository, request) cases x 32 option sets = 192k match_packages runs; suggested_keywords on every version",
+    "thorough": "144+6 two-version + 125 three-version repositories x 84 single lines + 42 repositories x 210 two-line requests = 31,920 cases x 72 "
+    "option sets = 2.3M match_packages runs",
 }
 
 KNOWN = ["amd64", "x86", "arm", "x86-macos"]
